@@ -399,6 +399,106 @@ def f_lib(lu, a, s, order):
     return lu * s + a
 
 
+# ------------------------------------------------------------------ operator spellings of the same affine map
+SPELLINGS = ["mul-add", "rmul-add", "div-add", "mul-sub", "div-sub", "imul-iadd", "idiv-isub", "imul-isub", "idiv-iadd"]
+
+
+@st.composite
+def operator_cases(draw):
+    """The affine map u -> s*u + a written with every operator the class offers, in every number class."""
+    num = draw(st.sampled_from(["frac", "int", "int", "float"]))
+    U, p = draw(gen.knotvectors(0, 3, 3))
+    if num == "int":
+        # integer knots: the same vector on the integer grid of its denominators
+        den = 1
+        for u in U:
+            den = den * u.denominator // math.gcd(den, u.denominator)
+        U = [u * den for u in U]
+    if num == "frac":
+        a = draw(gen.small_fracs())
+        s = draw(st.builds(lambda x, y: F(x, y), st.integers(1, 12), st.integers(1, 7)))
+    elif num == "int":
+        a = F(draw(st.integers(-9, 9)))
+        s = draw(st.sampled_from([F(2), F(3), F(7), F(1, 2), F(1, 3), F(1, 4), F(1, 7)]))
+    else:
+        a = draw(st.builds(lambda k: F(k, 8), st.integers(-40, 40)))
+        s = draw(st.sampled_from([F(1, 2), F(2), F(4), F(1, 4), F(8), F(1, 8)]))  # powers of two: exact in floats
+    return {"U": U, "p": p, "num": num, "a": a, "s": s, "spelling": draw(st.sampled_from(SPELLINGS)),
+            "sclass": draw(st.sampled_from(["native", "native", "frac"]))}
+
+
+def check_operators(case, out):
+    num, p = case["num"], case["p"]
+    fa, fs = case["a"], case["s"]
+    Ulib = [lib.conv_knot(u, num) for u in case["U"]]
+    U = [oracle.frac(u) for u in Ulib]  # (the float profile starts from the rounded knots)
+
+    def number(x):
+        # an operand in the number class of the profile: Python int when integral in the int profile
+        if case["sclass"] == "frac" and num != "float":
+            return F(x)
+        if num == "int":
+            return int(x) if F(x).denominator == 1 else F(x)
+        return lib.conv_knot(x, num)
+    sp = case["spelling"]
+    mulpart, addpart = sp.split("-")
+    usediv = mulpart.endswith("div")
+    factor = number(1 / fs) if usediv else number(fs)
+    usesub = addpart.endswith("sub")
+    shift = number(-fa) if usesub else number(fa)
+    out.cls("num=" + num, "spelling=" + sp, "factor-class=" + type(factor).__name__, "shift-class=" + type(shift).__name__)
+    bk = oracle.breaks(U)
+    out.nontrivial = len(bk) >= 3
+    klass = f"{num};{sp}"
+    k0 = lib.KnotVector(list(Ulib))
+    try:
+        if mulpart == "mul":
+            k1 = k0 * factor
+        elif mulpart == "rmul":
+            k1 = factor * k0
+        elif mulpart == "div":
+            k1 = k0 / factor
+        else:
+            k1 = lib.KnotVector(list(Ulib))
+            if mulpart == "imul":
+                k1 *= factor
+            else:
+                k1 /= factor
+        if addpart == "add":
+            k2 = k1 + shift
+        elif addpart == "sub":
+            k2 = k1 - shift
+        else:
+            k2 = k1
+            if addpart == "iadd":
+                k2 += shift
+            else:
+                k2 -= shift
+    except Exception as exc:
+        if not lib.from_library(exc):
+            raise
+        out.fail("unexpected-exception", klass,
+                 f"{sp} with factor {factor!r} and shift {shift!r} on {Ulib}: {type(exc).__name__}: {exc} at {lib.lib_site(exc)}")
+        return
+    if not isinstance(k2, lib.KnotVector):
+        out.fail("structure", klass, f"{sp}: result is a {type(k2).__name__}")
+        return
+    L = [oracle.frac(x) for x in k2]
+    exp = [u * fs + fa for u in U]
+    if k2.degree != p or len(L) != len(U) or [oracle.mult(L, z) for z in oracle.breaks(L)] != [oracle.mult(U, z) for z in bk]:
+        out.fail("multiplicities", klass, f"{sp} with factor {factor!r}, shift {shift!r} on {Ulib}: {list(k2)} (degree {k2.degree})")
+        return
+    inexact = any(isinstance(x, (float, np.floating)) for x in k2)
+    tol = F(1, 10 ** 11) if inexact else F(0)
+    if any(abs(x - y) > tol * max(1, abs(y)) for x, y in zip(L, exp)):
+        out.fail("affine-map", klass, f"{sp} with factor {factor!r}, shift {shift!r} on {Ulib}: got {list(k2)}, expected {exp}")
+        return
+    if num == "frac" and inexact:
+        out.fail("type", klass, f"{sp} with Fraction operands on Fraction knots returned floats: {list(k2)}")
+    if [oracle.frac(x) for x in k0] != U:
+        out.fail("operand-modified", klass, f"{sp}: the left operand changed to {list(k0)}")
+
+
 FACETS = [
     Facet("sweep", lambda tier: sweep_cases(), check_sweep, quick=300, thorough=3000,
           rule="sampled (p, n, cls) beyond the exhaustive range (n up to p+120); also the replay entry for sweep findings"),
@@ -406,4 +506,8 @@ FACETS = [
           rule="random() under generated numpy seeds; weight() with generated weights"),
     Facet("affine", lambda tier: affine_cases(), check_affine, quick=800, thorough=15000,
           rule="shift/scale/normalize and reparametrisation invariance"),
+    Facet("operators", lambda tier: operator_cases(), check_operators, quick=1200, thorough=15000,
+          rule="the map u -> s*u + a spelt with * / + - and their in-place forms (also s * U), on Fraction, Python-int "
+               "and float knot vectors with operands of the matching or of the Fraction class: same multiplicities, "
+               "every knot mapped (exactly unless the result holds floats); non-trivial: an interior knot"),
 ]
